@@ -63,11 +63,21 @@ def _hook(kind, idx, script):
             return
         if out == 'raise':
             raise ValueError('%s of layer %d' % (kind, idx))
+        if out == 'raise_unhashable':
+            raise UnhashableError('%s of layer %d' % (kind, idx))
         if out == 'notimpl':
             raise NotImplementedError
         if out == 'kbd':
             raise KeyboardInterrupt
     return hook
+
+
+class UnhashableError(Exception):
+    """An exception whose instances cannot be hashed (like a dataclass exception with eq=True)."""
+    __hash__ = None
+
+    def __eq__(self, other):
+        return self is other
 
 
 class InstanceLayer:
@@ -131,6 +141,8 @@ def _act(self, out):
         raise ValueError(out[1])
     if isinstance(out, list) and out[0] == 'fail':
         self.fail(out[1])
+    if out == 'error_unhashable':
+        raise UnhashableError('scripted unhashable error')
     raise AssertionError('unknown outcome %r' % (out,))
 
 
@@ -142,6 +154,8 @@ def _writes(T, phase):
             sys.stderr.write(token)
         elif stream == 'stdout.buffer':
             sys.stdout.buffer.write(token.encode())
+        elif stream == 'stdout.badbytes':
+            sys.stdout.buffer.write(token.encode() + b'\xff\xfe')
         elif stream == 'print':
             print(token)
 
